@@ -176,6 +176,13 @@ func (sr *specRun) fn(fn *ssa.Function, args []sval, depth int) []specOutcome {
 				case in.Op == token.MUL:
 					// load: bound access path?
 					p := path(in)
+					if ia, isIA := in.X.(*ssa.IndexAddr); isIA {
+						if _, isC := ia.Index.(*ssa.Const); !isC {
+							// element of a ranged slice
+							env[in] = symv("elem(" + get(ia.X).String() + ")")
+							break
+						}
+					}
 					if bv, ok := sr.cfg.Paths[p]; ok {
 						env[in] = bv
 					} else if cv, ok := specLoad(env, in.X); ok {
